@@ -286,16 +286,10 @@ def sub(tier, what, out):
 def run(tier):
     chk = vf.Check(PROP, tier, level='fault_enumeration', deadline_s=1800 if tier == 'quick' else 7200)
     for cfg in CFGS[tier]:
-        fd, out = tempfile.mkstemp(prefix='c15', dir=os.path.join(vf.VERIF, 'build')); os.close(fd)
-        r = subprocess.run([sys.executable, os.path.join(vf.VERIF, 'vcheck'), PROP, '--tier', tier, '--sub', cfg, '--out', out],
-                           stdout=subprocess.PIPE, stderr=subprocess.STDOUT, text=True)
-        try:
-            d = json.load(open(out))
-        except Exception:
-            chk.violation('harness:' + cfg, {'cfg': cfg, 'kind': 'none'}, 'sub-exploration %s failed: %s' % (cfg, r.stdout[-800:]))
+        d, err = vf.run_sub(PROP, tier, cfg, prefix='c15')
+        if d is None:
+            chk.harness_error('sub-exploration %s failed: %s' % (cfg, err))
             continue
-        finally:
-            os.unlink(out)
         for v in d['viol']:
             chk.violation(v['key'], v['rec'], v['msg'] + ' [cfg %s]' % cfg)
         chk.part('released_blocks_' + cfg, states=d['blocks'], transitions=d['runs'], traces_validated_against_impl=d['runs'], evaluations=d['runs'],
